@@ -123,7 +123,7 @@ func (w *world) slashList(sm *fsm.StateMachine) []*lib.DoubleSigner {
 func (w *world) checkSlashing(n *node, cur *snapshot, what string, blockTxs [][]byte) {
 	c := w.c
 	sw := w.slash
-	if sw == nil || !sw.oracle {
+	if sw == nil {
 		return
 	}
 	prev := sw.prev
@@ -193,7 +193,7 @@ func (w *world) checkSlashing(n *node, cur *snapshot, what string, blockTxs [][]
 			}
 		}
 		c.Check()
-		if after < once {
+		if after < once && sw.oracle {
 			c.ReportFor("C14", "slash-once", "slashed-beyond-once-per-validator-and-height", fmt.Sprintf("%s on %s: validator %x had stake %d, the certified lists of block %d name %d new (validator,height) pairs (heights %v, already slashed %v) at %d%%: stake may fall to %d but is %d", what, n.name, []byte(addr)[:4], before.StakedAmount, h, nNew, a.heights, keysU64(sw.done[addr]), p, once, after))
 		}
 		if v2 && capPct < 100 {
@@ -205,13 +205,19 @@ func (w *world) checkSlashing(n *node, cur *snapshot, what string, blockTxs [][]
 				bound = 0
 			}
 			c.Check()
-			if after < bound {
+			if after < bound && sw.oracle {
 				c.ReportFor("C14", "slash-cap", "committee-slashed-beyond-cap-in-one-block", fmt.Sprintf("%s on %s: validator %x had stake %d and committee %d took it to %d in block %d; the per-committee cap is %d%% (floor %d)", what, n.name, []byte(addr)[:4], before.StakedAmount, nestedId, after, h, capPct, bound))
 			}
 			c.Probe("slash_cap_checked")
 		}
 		if after < before.StakedAmount {
 			c.Probe("double_sign_slash_applied")
+			if before.UnstakingHeight != 0 {
+				c.Probe("double_sign_slash_applied_to_unstaking_validator")
+			}
+			if before.MaxPausedHeight != 0 {
+				c.Probe("double_sign_slash_applied_to_paused_validator")
+			}
 			for hh := range seen {
 				sw.done[addr][hh] = true
 			}
